@@ -1,10 +1,12 @@
 #!/bin/bash
 # developer helper: run the quick (or $TIER) check of the given properties one after another
-# usage: lib/runall.sh C07 C01 ...     (logs: /tmp/run_<id>.log, summary: /tmp/run_all.status, pid: /tmp/runall.pid)
+# usage: lib/runall.sh C07 C01 ...     (logs: /tmp/run_<id>.log, summary: /tmp/run_all.status, pids: /tmp/runall.pid /tmp/check.pid)
 echo $$ > /tmp/runall.pid
 cd /verif
 for p in "$@"; do
-  ./check $p ${TIER:+--tier $TIER} > /tmp/run_$p.log 2>&1
+  ./check $p ${TIER:+--tier $TIER} > /tmp/run_$p.log 2>&1 &
+  echo $! > /tmp/check.pid
+  wait $!
   echo "$p exit=$? $(tail -1 /tmp/run_$p.log | cut -c1-120)" >> /tmp/run_all.status
 done
-rm -f /tmp/runall.pid
+rm -f /tmp/runall.pid /tmp/check.pid
